@@ -17,6 +17,11 @@ from typing import Any
 from vf import c09_model as M
 from vf.common import Ctx
 from vf.common import pmap
+# imported here (not in the workers) so that the forked pool inherits the
+# loaded library instead of importing it once per process
+from vf.c09_batch import JudgeBatch
+from vf.loopback import run_workflow
+from bqskit.ir.circuit import Circuit
 
 DEFAULT = [0.001, 20, True]
 PARAMS = [[dd, es, rg] for dd in (0.001, 0.5) for es in (0, 20)
@@ -272,9 +277,6 @@ def fam_pam(quick: bool) -> list:
 
 # ----------------------------------------------------------------- worker
 def _work(item: tuple) -> dict:
-    from vf.c09_batch import JudgeBatch
-    from vf.loopback import run_workflow
-    from bqskit.ir.circuit import Circuit
     family, rank0, cases, seed = item
     _, data = run_workflow(Circuit(1), [JudgeBatch(cases, seed)])
     agg: dict[str, Any] = {
@@ -437,9 +439,6 @@ def run(ctx: Ctx) -> None:
 
 
 def _run_one(rep: dict) -> tuple:
-    from vf.c09_batch import JudgeBatch
-    from vf.loopback import run_workflow
-    from bqskit.ir.circuit import Circuit
     _, data = run_workflow(
         Circuit(1), [JudgeBatch([rep], int(rep.get('seed', 0)))],
     )
